@@ -92,6 +92,8 @@ fn seq_apply(st: &mut SeqState, o: &Op, r: &Ret) -> bool {
         (Op::Remove { id }, Ret::Doc(x, y)) => match st.0.remove(id) { Some(d) => d == (*x, *y), None => false },
         (Op::Remove { id }, Ret::NoDoc) => !st.0.contains_key(id),
         (Op::Flush, Ret::Bool(_)) => true,
+        (Op::SetExt { key, val } | Op::SaveExt { key, val }, Ret::Unit) => { st.0.insert(ext_id(key), (*val, 0)); true }
+        (Op::RemoveExt { key }, Ret::Unit) => { st.0.remove(&ext_id(key)); true }
         (Op::Get { id }, Ret::Doc(x, y)) => st.0.get(id) == Some(&(*x, *y)),
         (Op::Get { id }, Ret::NotFound) => !st.0.contains_key(id),
         _ => false,
@@ -188,8 +190,8 @@ fn versions(ops: &[Op], rets: &[Ret]) -> BTreeMap<u64, Vec<(u64, u64)>> {
 
 /// one explorer run: `first` operations start at time 0 in index order, `late` ones as soon as the
 /// first call has returned (so that real-time order constraints exist)
-fn run_once(out: &mut Out, first: &[Op], late: &[Op], cache: bool, post: bool, odo: &mut Odometer, rng: Option<&mut Rng>, always_emit: bool) {
-    let ops: Vec<Op> = first.iter().chain(late.iter()).cloned().collect();
+fn run_once(out: &mut Out, first: &[Op], late: &[Op], deferred: &[Op], cache: bool, post: bool, odo: &mut Odometer, rng: Option<&mut Rng>, always_emit: bool) {
+    let ops: Vec<Op> = first.iter().chain(late.iter()).chain(deferred.iter()).cloned().collect();
     let ops = &ops[..];
     let w = World::new(cache, true, &DOCS);
     { let mut st = w.store.st.lock().unwrap(); st.mode = Mode::Park; st.post_park = post; st.trace.clear(); }
@@ -198,19 +200,29 @@ fn run_once(out: &mut Out, first: &[Op], late: &[Op], cache: bool, post: bool, o
     let start = |run: &mut Run, id: i64| { run.w.store.st.lock().unwrap().trace.push(Tr::Issue { op: id, kind: "start", path: String::new() }); run.start(id); };
     for id in 0..first.len() { start(&mut run, id as i64); }
     let mut late_started = late.is_empty();
+    // deferred operations: WHEN each of them starts is a scheduling choice like the release of a parked call
+    let mut next_deferred = first.len() + late.len();
     odo.begin();
     let mut rng = rng;
     let mut step = 0usize;
     let mut sched: Vec<String> = vec![];
     loop {
         if !late_started && run.actors.iter().any(|a| a.ret.is_some()) {
-            for id in first.len()..ops.len() { start(&mut run, id as i64); }
+            for id in first.len()..first.len() + late.len() { start(&mut run, id as i64); }
             late_started = true;
         }
-        if run.all_done() && late_started { break; }
+        if run.all_done() && late_started && next_deferred >= ops.len() { break; }
         let en = run.enabled();
-        if en.is_empty() { break; }
-        let c = match rng.as_deref_mut() { Some(r) => r.below(en.len() as u64) as usize, None => odo.pick(step, en.len()) };
+        let extra = if next_deferred < ops.len() { 1 } else { 0 };
+        if en.len() + extra == 0 { break; }
+        let c = match rng.as_deref_mut() { Some(r) => r.below((en.len() + extra) as u64) as usize, None => odo.pick(step, en.len() + extra) };
+        if c == en.len() {
+            sched.push(format!("start:{}", ops[next_deferred].name()));
+            start(&mut run, next_deferred as i64);
+            next_deferred += 1;
+            step += 1;
+            continue;
+        }
         sched.push(format!("{}:{}{}:{}", en[c].op, en[c].kind, if en[c].phase == 1 { "'" } else { "" }, canon_path(&en[c].path)));
         run.release(en[c].ticket);
         step += 1;
@@ -219,17 +231,20 @@ fn run_once(out: &mut Out, first: &[Op], late: &[Op], cache: bool, post: bool, o
     out.evaluations += 1;
     let rets: Vec<Ret> = run.actors.iter().map(|a| a.ret.clone().unwrap_or(Ret::Err("pending".into()))).collect();
     let input = json!({"ops": first.iter().map(|o| format!("{o:?}")).collect::<Vec<_>>(), "late_ops": late.iter().map(|o| format!("{o:?}")).collect::<Vec<_>>(),
+                       "deferred_ops": deferred.iter().map(|o| format!("{o:?}")).collect::<Vec<_>>(),
                        "cache": cache, "post_park": post, "schedule": sched, "returns": rets.iter().map(|r| r.show()).collect::<Vec<_>>()});
-    if !(run.all_done() && late_started) { out.fail("deadlock", "no parked call left but operations are pending".into(), input); return; }
+    if !(run.all_done() && late_started && next_deferred >= ops.len()) { out.fail("deadlock", "no parked call left but operations are pending".into(), input); return; }
     run.w.store.set_mode(Mode::Pass);
     // reads that start after every call has returned: through the handle (and its read cache)
-    let (ids, docs) = dump(&run.w.coll);
+    let (ids, real_docs) = dump(&run.w.coll);
+    let mut docs = real_docs.clone();
+    docs.extend(dump_exts(&run.w.coll));
     let input = { let mut i = input; i["final_ids"] = json!(ids); i["final_docs"] = json!(docs.iter().map(|(k, v)| format!("{k}:{v:?}")).collect::<Vec<_>>()); i };
     // ---- direct oracles
     let mut probes: Vec<u64> = vec![10, 20, 30, 70, 71, 72, 73];
-    probes.extend(docs.values().map(|d| d.0));
+    probes.extend(real_docs.values().map(|d| d.0));
     for b in consistency_failures(&run.w.coll, &probes, true) { out.fail("index-document-divergence", b, input.clone()); }
-    if ids != docs.keys().cloned().collect::<Vec<_>>() { out.fail("ids-without-document", format!("ids {:?} vs readable documents {:?}", ids, docs.keys()), input.clone()); }
+    if ids != real_docs.keys().cloned().collect::<Vec<_>>() { out.fail("ids-without-document", format!("ids {:?} vs readable documents {:?}", ids, real_docs.keys()), input.clone()); }
     let add_ids: Vec<u64> = rets.iter().filter_map(|r| if let Ret::Id(i) = r { Some(*i) } else { None }).collect();
     if add_ids.iter().collect::<BTreeSet<_>>().len() != add_ids.len() || add_ids.iter().any(|i| *i <= 3) { out.fail("duplicate-id", format!("adds returned {:?}", add_ids), input.clone()); }
     for o in ops { if let Op::Remove { id } = o {
@@ -247,7 +262,7 @@ fn run_once(out: &mut Out, first: &[Op], late: &[Op], cache: bool, post: bool, o
             _ => {}
         }
     }
-    for (id, d) in &docs { if !vers.get(id).map(|v| v.contains(d)).unwrap_or(false) { out.fail("read-returns-unwritten-document", format!("final get({id}) returned {d:?}, never written"), input.clone()); } }
+    for (id, d) in &real_docs { if !vers.get(id).map(|v| v.contains(d)).unwrap_or(false) { out.fail("read-returns-unwritten-document", format!("final get({id}) returned {d:?}, never written"), input.clone()); } }
     // real-time order: Return(a) logged before Start(b)
     let mut before: Vec<(usize, usize)> = vec![];
     let strong: Vec<usize> = (0..ops.len()).filter(|i| !matches!(ops[*i], Op::QueryIds { .. })).collect();
@@ -276,10 +291,29 @@ fn run_once(out: &mut Out, first: &[Op], late: &[Op], cache: bool, post: bool, o
             out.fail("not-linearizable", "no order of the mutations respecting real time reproduces their return values and the documents read after quiescence such that every read returned a document state not older than the mutations acknowledged before it started".into(), input.clone());
         } else { out.bump("runs_with_reads_overlapping_an_unacknowledged_write_not_strictly_linearizable"); }
     }
+    // ---- what a clean close persists is the state every call left behind: close, reopen, compare
+    if !rets.iter().any(|r| matches!(r, Ret::Err(_) | Ret::Lifecycle(_) | Ret::ReadOnly)) {
+        let c = run.w.coll.clone();
+        let closed = drive(async move { c.close().await.map_err(|e| format!("{e:?}")) });
+        match closed.and_then(|_| run.w.reopen()) {
+            Err(e) => out.fail("close-or-reopen-fails", format!("after the run: {e}"), input.clone()),
+            Ok(c2) => {
+                let (_, mut d2) = dump(&c2);
+                d2.extend(dump_exts(&c2));
+                if d2 != docs {
+                    let show = |m: &BTreeMap<u64, (u64, u64)>| m.iter().map(|(k, v)| if *k > EXT_BASE { format!("ext:{}={}", EXT_KEYS[(*k - EXT_BASE - 1) as usize % 3], v.0) } else { format!("{k}:{v:?}") }).collect::<Vec<_>>();
+                    out.fail("persisted-state-diverges-after-close", format!("in memory after the run {:?}; after close + reopen {:?}", show(&docs), show(&d2)), input.clone());
+                }
+                let mut pr: Vec<u64> = probes.clone(); pr.extend(d2.iter().filter(|(k, _)| **k < EXT_BASE).map(|(_, d)| d.0));
+                for b in consistency_failures(&c2, &pr, true) { out.fail("index-document-divergence", format!("after close + reopen: {b}"), input.clone()); }
+            }
+        }
+    }
     // ---- model cases
     out.seen += 1;
     let emit = always_emit || out.seen % out.model_every == 0;
-    if !emit || strong.len() != ops.len() { return; }
+    let model_op = |o: &Op| matches!(o, Op::Add { .. } | Op::Update { .. } | Op::Remove { .. } | Op::Flush | Op::Get { .. });
+    if !emit || !ops.iter().all(model_op) { return; }
     let st = run.w.store.st.lock().unwrap();
     let docs0 = init_state().0;
     // which gets were served by the read cache (no backend GET), and did one of them start while a write of the
@@ -331,21 +365,23 @@ fn run_once(out: &mut Out, first: &[Op], late: &[Op], cache: bool, post: bool, o
     }
 }
 
-fn explore_set(out: &mut Out, first: &[Op], late: &[Op], cache: bool, post: bool, cap: usize, rng: &mut Rng) {
+fn explore_set(out: &mut Out, first: &[Op], late: &[Op], cache: bool, post: bool, cap: usize, rng: &mut Rng) { explore_set_d(out, first, late, &[], cache, post, cap, rng) }
+fn explore_set_d(out: &mut Out, first: &[Op], late: &[Op], deferred: &[Op], cache: bool, post: bool, cap: usize, rng: &mut Rng) {
     let mut odo = Odometer::default();
     let mut n = 0usize;
-    let k = first.len() + late.len();
+    let k = first.len() + late.len() + deferred.len();
     loop {
-        run_once(out, first, late, cache, post, &mut odo, None, n == 0);
+        run_once(out, first, late, deferred, cache, post, &mut odo, None, n == 0);
         n += 1;
         if !odo.next() { out.bump(&format!("sets_exhaustive:{k}")); break; }
         if n >= cap {
-            for _ in 0..cap / 2 { let mut r = rng.fork(); run_once(out, first, late, cache, post, &mut Odometer::default(), Some(&mut r), false); }
+            for _ in 0..cap / 2 { let mut r = rng.fork(); run_once(out, first, late, deferred, cache, post, &mut Odometer::default(), Some(&mut r), false); }
             out.bump(&format!("sets_sampled:{k}"));
             break;
         }
     }
     *out.dist.entry(format!("runs:{k}ops")).or_insert(0) += n as u64;
+    if deferred.iter().chain(first).chain(late).any(|o| matches!(o, Op::SetExt { .. } | Op::SaveExt { .. } | Op::RemoveExt { .. })) { *out.dist.entry("runs_with_extension_writers".into()).or_insert(0) += n as u64; }
     if first.iter().chain(late).any(|o| !o.is_mutating()) { *out.dist.entry("runs_with_reads".into()).or_insert(0) += n as u64; }
 }
 
@@ -461,7 +497,19 @@ pub fn main(args: &[String]) {
     for w in &pool[2..7] { for w2 in &pool[2..7] {
         explore_set(&mut out, &[Op::Get { id: 1 }, w.clone(), w2.clone()], &[Op::Get { id: 1 }], true, true, cap / 3, &mut rng);
     } }
+    // extension writers: save/remove_extension hold a lease; set_extension is synchronous and takes none, so WHEN it
+    // runs relative to the backend steps of a flush is a scheduling choice (deferred start)
+    let k = |s: &str| s.to_string();
+    let exts = vec![Op::SetExt { key: k("k1"), val: 7 }, Op::SetExt { key: k("k1"), val: 8 }, Op::SaveExt { key: k("k2"), val: 5 }, Op::RemoveExt { key: k("k3") }];
+    let dirty = vec![Op::SetExt { key: k("k3"), val: 1 }, Op::Add { a: 70, b: 7 }, Op::Update { id: 1, a: Some(72), b: None }, Op::SaveExt { key: k("k3"), val: 2 }];
+    for d in &dirty { for e in &exts {
+        explore_set_d(&mut out, &[d.clone(), Op::Flush], &[], &[e.clone()], true, true, cap, &mut rng);
+        explore_set_d(&mut out, &[d.clone(), e.clone(), Op::Flush], &[], &[], true, false, cap / 2, &mut rng);
+    } }
+    for e in &exts { for e2 in &exts { explore_set_d(&mut out, &[e.clone(), Op::Flush], &[], &[e2.clone()], true, true, cap / 2, &mut rng); } }
+    explore_set_d(&mut out, &[Op::SetExt { key: k("k3"), val: 1 }, Op::Flush], &[], &[Op::SetExt { key: k("k1"), val: 7 }, Op::SetExt { key: k("k2"), val: 9 }], true, true, cap, &mut rng);
     let mut pool_rw = pool.clone();
+    pool_rw.extend(exts.iter().cloned());
     pool_rw.extend(reads.iter().cloned());
     for _ in 0..triples {
         let ops: Vec<Op> = (0..3).map(|_| rng.pick(&pool_rw).clone()).collect();
